@@ -158,6 +158,25 @@ var otherGroup = func() []*auparse.AuditMessage {
 	return out
 }()
 
+// coalesceSibling coalesces the same group with every value extended by one character first.
+func coalesceSibling(c C09Case) {
+	var msgs []*auparse.AuditMessage
+	for _, r := range c.Recs {
+		r.Fields = append([]kenc.F(nil), r.Fields...)
+		for i := range r.Fields {
+			if r.Fields[i].K != "" && r.Fields[i].K != "saddr" && r.Fields[i].K != "arch" && r.Fields[i].K != "syscall" {
+				r.Fields[i].V = append(append([]byte(nil), r.Fields[i].V...), '7')
+			}
+		}
+		if m, err := auparse.Parse(auparse.AuditMessageType(r.Type), r.Raw()); err == nil {
+			msgs = append(msgs, m)
+		}
+	}
+	if ev, err := aucoalesce.CoalesceMessages(msgs); err == nil {
+		aucoalesce.ResolveIDs(ev)
+	}
+}
+
 func coalesceSomethingElse() {
 	if ev, err := aucoalesce.CoalesceMessages(otherGroup); err == nil {
 		aucoalesce.ResolveIDs(ev)
@@ -538,6 +557,7 @@ func propC09(c C09Case) error {
 	if err != nil {
 		return err
 	}
+	coalesceSibling(c) // nor on what was coalesced before
 	ev, err := aucoalesce.CoalesceMessages(msgs)
 	coalesceSomethingElse() // the event handed out must not depend on what is coalesced afterwards
 	data := 0
